@@ -420,6 +420,10 @@ def run(repo, rep, tier):
     _order_and_text_rules(repo, rep, tp)
     _linearity(repo, rep)
     _null_vs_empty(repo, rep, tp)
+    # the datetime writer str(CIMDateTime) is part of every VALUE written for
+    # a datetime: same exact-arithmetic rule as C06.R8
+    from .c06 import _r8_exact_fields
+    _r8_exact_fields(repo, rep, 'C01.R12')
 
 
 REORDER_FUNCS = {'sorted', 'reversed', 'set', 'frozenset'}
